@@ -60,7 +60,10 @@ def _mk_errors():
 ERRORS = _mk_errors()
 
 
-def error_for(kind):
+def error_for(kind, received=b""):
+    if kind == "timeout" and received:
+        # python-libusb1: a transfer that times out after part of the data arrived reports those bytes in `received`
+        return ERRORS[_ERR_CLASS_NAMES[kind]](bytearray(received))
     return ERRORS[_ERR_CLASS_NAMES[kind]]()
 
 
@@ -89,7 +92,7 @@ class ScriptBackend(object):
         ent = self._next()
         if ent[0] == "err":
             self.results.append(("err", ent[1]))
-            raise error_for(ent[1])
+            raise error_for(ent[1], ent[2] if len(ent) > 2 else b"")
         name = call[0]
         bs, n = bytes(ent[1]), int(ent[2])
         if name == "open":
